@@ -186,6 +186,106 @@ fn line_matches(e: &ELine, p: &Line) -> Result<(), String> {
 }
 
 /// C04: encode with all three entry points, parse with the independent parser, compare line by line.
+/// A sink that never fails for good: it takes only part of each buffer and reports `ErrorKind::Interrupted`
+/// now and then (never twice in a row). A caller that writes the way `write_all` does delivers every byte
+/// exactly once, in order.
+pub struct Choppy {
+    pub got: Vec<u8>,
+    state: u64,
+    cap: usize,
+    interrupted: bool,
+    pub calls: u64,
+    pub interrupts: u64,
+}
+
+impl Choppy {
+    pub fn new(seed: u64, total: usize) -> Choppy {
+        let cap = if total > 20_000 { 4096 } else { [1usize, 3, 7, 64, 1000][(seed % 5) as usize] };
+        Choppy { got: Vec::new(), state: seed | 1, cap, interrupted: false, calls: 0, interrupts: 0 }
+    }
+}
+
+impl std::io::Write for Choppy {
+    fn write(&mut self, buf: &[u8]) -> std::io::Result<usize> {
+        self.calls += 1;
+        self.state = self.state.wrapping_mul(6364136223846793005).wrapping_add(1442695040888963407);
+        let r = (self.state >> 33) as usize;
+        if r % 4 == 0 && !self.interrupted {
+            self.interrupted = true;
+            self.interrupts += 1;
+            return Err(std::io::Error::new(std::io::ErrorKind::Interrupted, "injected EINTR"));
+        }
+        self.interrupted = false;
+        if buf.is_empty() {
+            return Ok(0);
+        }
+        let n = buf.len().min(1 + (r / 4) % self.cap);
+        self.got.extend_from_slice(&buf[..n]);
+        Ok(n)
+    }
+    fn flush(&mut self) -> std::io::Result<()> {
+        Ok(())
+    }
+}
+
+/// A sink that takes `left` bytes (in short writes) and then fails for good.
+pub struct Breaks {
+    pub left: usize,
+}
+
+impl std::io::Write for Breaks {
+    fn write(&mut self, buf: &[u8]) -> std::io::Result<usize> {
+        if self.left == 0 {
+            return Err(std::io::Error::new(std::io::ErrorKind::Other, "injected sink failure"));
+        }
+        let n = buf.len().min(self.left).min(5);
+        self.left -= n;
+        Ok(n)
+    }
+    fn flush(&mut self) -> std::io::Result<()> {
+        Ok(())
+    }
+}
+
+/// Fault paths of an `io::Write` encoder: short writes and EINTR must not lose, repeat or reorder a byte, and a
+/// sink that broke in the middle of one call must leave nothing behind that shows in the next call on the same
+/// encoder value (and thread).
+fn sink_faults<E: prometheus::Encoder>(cx: &mut Ctx, enc: &E, pmfs: &[proto::MetricFamily], bytes: &[u8], what: &str, rule_prefix: &str, detail: &dyn Fn() -> vcore::json::Json) {
+    if bytes.len() > if cfg!(miri) { 3_000 } else { 300_000 } {
+        return;
+    }
+    let seed = cx.seed ^ cx.case.wrapping_mul(0x9E37_79B9_7F4A_7C15) ^ bytes.len() as u64;
+    let mut sink = Choppy::new(seed, bytes.len());
+    let r = enc.encode(pmfs, &mut sink);
+    cx.part.count("choppy_sink_encodes", 1);
+    cx.part.count("choppy_sink_short_writes", sink.calls);
+    cx.part.count("choppy_sink_interrupts", sink.interrupts);
+    if let Err(e) = r {
+        cx.violation(&format!("{}-encode-fails-on-short-writes", rule_prefix), what, format!("a sink that takes part of each buffer and reports EINTR now and then (never fails for good) made encode return {:?}", e.to_string()), detail());
+        return;
+    }
+    if sink.got != bytes {
+        let at = sink.got.iter().zip(bytes.iter()).position(|(a, b)| a != b).unwrap_or(sink.got.len().min(bytes.len()));
+        cx.violation(&format!("{}-bytes-differ-on-short-writes", rule_prefix), what, format!("through a sink with short writes and EINTR {} bytes arrived, {} expected; first difference at byte {}", sink.got.len(), bytes.len(), at), detail());
+        return;
+    }
+    if !bytes.is_empty() {
+        let cut = (seed >> 7) as usize % bytes.len();
+        let mut broken = Breaks { left: cut };
+        let r = enc.encode(pmfs, &mut broken);
+        cx.part.count("broken_sink_then_next_call", 1);
+        if r.is_ok() {
+            cx.violation(&format!("{}-encode-ok-on-broken-sink", rule_prefix), what, format!("the sink failed for good after {} of {} bytes but encode returned Ok", cut, bytes.len()), detail());
+            return;
+        }
+        let mut again: Vec<u8> = Vec::new();
+        let r = enc.encode(pmfs, &mut again);
+        if r.is_err() || again != bytes {
+            cx.violation(&format!("{}-call-after-broken-sink-differs", rule_prefix), what, format!("after a call whose sink broke at byte {}, the next call on the same encoder produced {} bytes ({} expected, ok={})", cut, again.len(), bytes.len(), r.is_ok()), detail());
+        }
+    }
+}
+
 pub fn text_roundtrip(cx: &mut Ctx, mfs: &[MF], pmfs: &[proto::MetricFamily], what: &str) {
     cx.part.count("text_roundtrips", 1);
     let enc = TextEncoder::new();
@@ -222,6 +322,7 @@ pub fn text_roundtrip(cx: &mut Ctx, mfs: &[MF], pmfs: &[proto::MetricFamily], wh
             cx.violation("encode-does-not-append-the-same-bytes", what, "encode into a non-empty Vec changed the prefix or produced different bytes".into(), detail(&text));
         }
     }
+    sink_faults(cx, &enc, pmfs, &bytes, what, "text", &|| detail(&text));
     let parsed = match textparse::parse(&text) {
         Ok(p) => p,
         Err(e) => {
@@ -370,6 +471,7 @@ pub fn pb_roundtrip(cx: &mut Ctx, mfs: &[MF], pmfs: &[proto::MetricFamily], what
         return;
     }
     cx.part.count("pb_bytes_decoded", bytes.len() as u64);
+    sink_faults(cx, &ProtobufEncoder::new(), pmfs, &bytes, what, "pb", &|| detail(&bytes));
     let decoded = match pbwire::decode_delimited_families(&bytes) {
         Ok(d) => d,
         Err(e) => {
